@@ -11,6 +11,9 @@ import ManifModel.Groups.SO3
 import ManifModel.Groups.SE3
 import ManifModel.Groups.SE23
 import ManifModel.Groups.Rn
+import ManifModel.Algorithms.Interp
+import ManifModel.Algorithms.DeCasteljau
+import ManifModel.Algorithms.Average
 import ManifModel.Generated.Generators
 namespace Manif
 open Scalar
@@ -72,7 +75,8 @@ def takeT {G T J} (c : Codec K G T J) (args : List K) : Option (T × List K) :=
 /-- Operations every group gets from its `GroupOps` (primitives with masks + derived).
     `none` = not an operation of this table / malformed arguments. -/
 def runBase {G T J} (o : GroupOps K G T J) (c : Codec K G T J)
-    (dbg : Bool) (op : String) (mask : Nat) (args : List K) : Option (Except Err (List K)) :=
+    (dbg : Bool) (op : String) (mask : Nat) (args : List K) (ints : List Int := []) :
+    Option (Except Err (List K)) :=
   let w0 := mask % 2 == 1
   let w1 := (mask / 2) % 2 == 1
   let out2G (r : Except Err (Out2 G J)) : Except Err (List K) :=
@@ -141,6 +145,55 @@ def runBase {G T J} (o : GroupOps K G T J) (c : Codec K G T J)
       let (a, _) ← takeT c args
       let W : List K := innerWeightsOfTable c.genTable
       pure (.ok [Scalar.sqrt (dotTree (vecMatFlat c.dof (c.tTo a) W) (c.tTo a))])
+  | "interp_slerp" => do
+      let (A, r) ← takeG c args
+      let (B, r) ← takeG c r
+      match r with
+      | [t] => pure ((o.interpSlerp dbg A B t).map c.gTo)
+      | _ => none
+  | "interp_cubic" => do
+      let (A, r) ← takeG c args
+      let (B, r) ← takeG c r
+      match r with
+      | t :: r =>
+        let (ta, r) ← takeT c r
+        let (tb, _) ← takeT c r
+        pure ((o.interpCubic dbg A B t ta tb).map c.gTo)
+      | _ => none
+  | "interp_smooth" => do
+      let (A, r) ← takeG c args
+      let (B, r) ← takeG c r
+      match r, ints with
+      | t :: r, [m] =>
+        let (ta, r) ← takeT c r
+        let (tb, _) ← takeT c r
+        -- `const unsigned int m`: a negative int wraps to a huge degree -> logic_error from phi
+        pure ((o.interpSmooth dbg A B t (if m < 0 then 1000000 else m.toNat) ta tb).map c.gTo)
+      | _, _ => none
+  | "avg_bi" | "avg_w" | "avg_fl" | "avg_fr" =>
+      match args, ints with
+      | eps :: pts, [maxIt] =>
+        if c.rep == 0 || pts.length % c.rep != 0 then none else
+        let n := pts.length / c.rep
+        let gs := (List.range n).filterMap fun i => c.gOf ((pts.drop (i * c.rep)).take c.rep)
+        if gs.length != n then none else
+        let mi := maxIt.toNat
+        let r := match op with
+          | "avg_bi" => o.averageBiinvariant dbg gs eps mi
+          | "avg_w" => o.averageWeighted dbg gs mi
+          | "avg_fl" => o.averageFrechetLeft dbg gs eps mi
+          | _ => o.averageFrechetRight dbg gs eps mi
+        some (r.map c.gTo)
+      | _, _ => none
+  | "decasteljau" =>
+      match ints with
+      | [d, k, cl] =>
+        if c.rep == 0 || args.length % c.rep != 0 then none else
+        let n := args.length / c.rep
+        let gs := (List.range n).filterMap fun i => c.gOf ((args.drop (i * c.rep)).take c.rep)
+        if gs.length != n then none else
+        some ((decasteljau o dbg gs d.toNat k.toNat (cl != 0)).map fun l => l.flatMap c.gTo)
+      | _ => none
   | _ => none
 
 /-- `GeneratorEvaluator::run(i)` for the groups whose generators are switch tables; the tables
@@ -174,6 +227,14 @@ def so2Ops : GroupOps K (SO2 K) (SO2T K) K where
   jmul := fun a b => a * b
   jneg := fun a => -a
   jone := nat 1
+  tzero := ⟨nat 0⟩
+  tadd := fun a b => ⟨a.ang + b.ang⟩
+  tsub := fun a b => ⟨a.ang - b.ang⟩
+  tscale := fun a k => ⟨a.ang * k⟩
+  tsqnorm := fun a => a.ang * a.ang
+  tdot := fun a b => a.ang * b.ang
+  jmulT := fun j t => ⟨j * t.ang⟩
+  jtr := fun j => j
 
 def so2Codec : Codec K (SO2 K) (SO2T K) K where
   rep := 2
@@ -205,6 +266,14 @@ def se2Ops : GroupOps K (SE2 K) (SE2T K) (M3 K) where
   jmul := M3.mul
   jneg := M3.neg
   jone := M3.one
+  tzero := ⟨nat 0, nat 0, nat 0⟩
+  tadd := fun a b => ⟨a.x + b.x, a.y + b.y, a.ang + b.ang⟩
+  tsub := fun a b => ⟨a.x - b.x, a.y - b.y, a.ang - b.ang⟩
+  tscale := fun a k => ⟨a.x * k, a.y * k, a.ang * k⟩
+  tsqnorm := fun a => sum3 (a.x * a.x) (a.y * a.y) (a.ang * a.ang)
+  tdot := fun a b => sum3 (a.x * b.x) (a.y * b.y) (a.ang * b.ang)
+  jmulT := fun j t => let v := j.mulVec ⟨t.x, t.y, t.ang⟩; ⟨v.x, v.y, v.z⟩
+  jtr := M3.transpose
 
 def se2Codec : Codec K (SE2 K) (SE2T K) (M3 K) where
   rep := 4
@@ -236,6 +305,14 @@ def so3Ops : GroupOps K (SO3 K) (SO3T K) (M3 K) where
   jmul := M3.mul
   jneg := M3.neg
   jone := M3.one
+  tzero := ⟨V3.zero⟩
+  tadd := fun a b => ⟨a.v.add b.v⟩
+  tsub := fun a b => ⟨a.v.sub b.v⟩
+  tscale := fun a k => ⟨a.v.muls k⟩
+  tsqnorm := fun a => a.v.sqNorm
+  tdot := fun a b => a.v.dot b.v
+  jmulT := fun j t => ⟨j.mulVec t.v⟩
+  jtr := M3.transpose
 
 def so3Codec : Codec K (SO3 K) (SO3T K) (M3 K) where
   rep := 4
@@ -267,6 +344,14 @@ def se3Ops : GroupOps K (SE3 K) (SE3T K) (M6 K) where
   jmul := M6.mul
   jneg := M6.neg
   jone := M6.one
+  tzero := ⟨V3.zero, V3.zero⟩
+  tadd := fun a b => ⟨a.lin.add b.lin, a.ang.add b.ang⟩
+  tsub := fun a b => ⟨a.lin.sub b.lin, a.ang.sub b.ang⟩
+  tscale := fun a k => ⟨a.lin.muls k, a.ang.muls k⟩
+  tsqnorm := fun a => a.lin.sqNorm + a.ang.sqNorm
+  tdot := fun a b => a.lin.dot b.lin + a.ang.dot b.ang
+  jmulT := fun j t => ⟨(j.tl.mulVec t.lin).add (j.tr.mulVec t.ang), (j.bl.mulVec t.lin).add (j.br.mulVec t.ang)⟩
+  jtr := fun j => ⟨j.tl.transpose, j.bl.transpose, j.tr.transpose, j.br.transpose⟩
 
 def se3Codec : Codec K (SE3 K) (SE3T K) (M6 K) where
   rep := 7
@@ -299,7 +384,7 @@ def runSO2 (dbg : Bool) (op : String) (mask : Nat) (args : List K) (ints : List 
   | "make", [a, b], _ => some ((SO2.make dbg a b).map SO2.toList)
   | "ofAngle", [a], _ => some ((SO2.ofAngle dbg a).map SO2.toList)
   | "angle", [a, b], _ => some (.ok [SO2.angle ⟨a, b⟩])
-  | _, _, _ => runBase so2Ops so2Codec dbg op mask args
+  | _, _, _ => runBase so2Ops so2Codec dbg op mask args ints
 
 def runSE2 (dbg : Bool) (op : String) (mask : Nat) (args : List K) (ints : List Int) :
     Option (Except Err (List K)) :=
@@ -320,7 +405,7 @@ def runSE2 (dbg : Bool) (op : String) (mask : Nat) (args : List K) (ints : List 
   | "make", [a, b, c, d], _ => some ((SE2.make dbg a b c d).map SE2.toList)
   | "ofXYAngle", [a, b, c], _ => some ((SE2.ofXYAngle dbg a b c).map SE2.toList)
   | "angle", [a, b, c, d], _ => some (.ok [SE2.angle ⟨a, b, c, d⟩])
-  | _, _, _ => runBase se2Ops se2Codec dbg op mask args
+  | _, _, _ => runBase se2Ops se2Codec dbg op mask args ints
 
 def runSO3 (dbg : Bool) (op : String) (mask : Nat) (args : List K) (ints : List Int) :
     Option (Except Err (List K)) :=
@@ -338,7 +423,7 @@ def runSO3 (dbg : Bool) (op : String) (mask : Nat) (args : List K) (ints : List 
   | "generator", [], [i] => some (genFromTable Generated.SO3GenTable Generated.SO3GenErr i)
   | "normalize", [a, b, c, d], _ => some (.ok (SO3.normalize ⟨⟨a, b, c, d⟩⟩).toList)
   | "make", [a, b, c, d], _ => some ((SO3.make dbg ⟨a, b, c, d⟩).map SO3.toList)
-  | _, _, _ => runBase so3Ops so3Codec dbg op mask args
+  | _, _, _ => runBase so3Ops so3Codec dbg op mask args ints
 
 def runSE3 (dbg : Bool) (op : String) (mask : Nat) (args : List K) (ints : List Int) :
     Option (Except Err (List K)) :=
@@ -361,7 +446,7 @@ def runSE3 (dbg : Bool) (op : String) (mask : Nat) (args : List K) (ints : List 
       some ((SE3.make dbg ⟨a, b, c⟩ ⟨qx, qy, qz, qw⟩).map SE3.toList)
   | "vee", _, _ => if args.length == 16 then some (.ok (SE3T.vee args).toList) else none
   | "fillQ", [a, b, c, d, e, f], _ => some (.ok (SE3T.fillQ ⟨a, b, c⟩ ⟨d, e, f⟩).toList)
-  | _, _, _ => runBase se3Ops se3Codec dbg op mask args
+  | _, _, _ => runBase se3Ops se3Codec dbg op mask args ints
 
 def se23Ops : GroupOps K (SE23 K) (SE23T K) (M9 K) where
   exp := SE23T.exp
@@ -383,6 +468,19 @@ def se23Ops : GroupOps K (SE23 K) (SE23T K) (M9 K) where
   jmul := M9.mul
   jneg := M9.neg
   jone := M9.one
+  tzero := ⟨V3.zero, V3.zero, V3.zero⟩
+  tadd := fun a b => ⟨a.lin.add b.lin, a.ang.add b.ang, a.lin2.add b.lin2⟩
+  tsub := fun a b => ⟨a.lin.sub b.lin, a.ang.sub b.ang, a.lin2.sub b.lin2⟩
+  tscale := fun a k => ⟨a.lin.muls k, a.ang.muls k, a.lin2.muls k⟩
+  tsqnorm := fun a => treeSum 10 ((a.toList).map fun x => x * x)
+  tdot := fun a b => dotTree a.toList b.toList
+  jmulT := fun j t =>
+    ⟨((j.b00.mulVec t.lin).add (j.b01.mulVec t.ang)).add (j.b02.mulVec t.lin2),
+     ((j.b10.mulVec t.lin).add (j.b11.mulVec t.ang)).add (j.b12.mulVec t.lin2),
+     ((j.b20.mulVec t.lin).add (j.b21.mulVec t.ang)).add (j.b22.mulVec t.lin2)⟩
+  jtr := fun j => ⟨j.b00.transpose, j.b10.transpose, j.b20.transpose,
+                   j.b01.transpose, j.b11.transpose, j.b21.transpose,
+                   j.b02.transpose, j.b12.transpose, j.b22.transpose⟩
 
 def se23Codec : Codec K (SE23 K) (SE23T K) (M9 K) where
   rep := 10
@@ -415,12 +513,51 @@ def runSE23 (dbg : Bool) (op : String) (mask : Nat) (args : List K) (ints : List
     | "rotation", [] => some (.ok X.rotation.toList)
     | "normalize", [] => some (.ok X.normalize.toList)
     | "make", [] => some ((SE23.make dbg X.t X.q X.v).map SE23.toList)
-    | _, _ => runBase se23Ops se23Codec dbg op mask args
+    | _, _ => runBase se23Ops se23Codec dbg op mask args ints
   | none, some t =>
     match op, args.drop 9 with
     | "hat", [] => some (.ok t.hatRows)
-    | _, _ => runBase se23Ops se23Codec dbg op mask args
-  | none, none => runBase se23Ops se23Codec dbg op mask args
+    | _, _ => runBase se23Ops se23Codec dbg op mask args ints
+  | none, none => runBase se23Ops se23Codec dbg op mask args ints
+
+/-- Rn as a record of primitives (used by the algorithms). -/
+def rnOps (n : Nat) : GroupOps K (List K) (List K) (List (List K)) where
+  exp := fun _ t => .ok (Rn.exp t)
+  expJ := fun _ => Rn.identRows n
+  log := Rn.log
+  logJ := fun _ => Rn.identRows n
+  compose := fun _ a b => .ok (Rn.compose a b)
+  composeJa := fun _ _ _ => .ok (Rn.identRows n)
+  composeJb := fun _ _ => Rn.identRows n
+  inverse := fun _ a => .ok (Rn.inverse a)
+  inverseJ := fun _ => Rn.negIdentRows n
+  adj := fun _ => Rn.identRows n
+  rjac := fun _ => Rn.identRows n
+  ljac := fun _ => Rn.identRows n
+  rjacinv := fun _ => Rn.identRows n
+  ljacinv := fun _ => Rn.identRows n
+  smallAdj := fun _ => Rn.zeroRows n
+  tneg := Rn.negL
+  jmul := fun a b => a.map fun row => (List.range n).map fun j => dotTree row (b.map fun r => r.getD j (nat 0))
+  jneg := fun a => a.map fun r => r.map fun x => -x
+  jone := Rn.identRows n
+  tzero := (List.range n).map fun _ => nat 0
+  tadd := Rn.zipAdd
+  tsub := fun a b => List.zipWith (· - ·) a b
+  tscale := fun a k => a.map fun x => x * k
+  tsqnorm := fun a => treeSum (n + 1) (a.map fun x => x * x)
+  tdot := dotTree
+  jmulT := fun j t => j.map fun row => dotTree row t
+  jtr := fun a => (List.range n).map fun j => a.map fun r => r.getD j (nat 0)
+
+def rnCodec (n : Nat) : Codec K (List K) (List K) (List (List K)) where
+  rep := n
+  dof := n
+  gOf := fun l => if l.length == n then some l else none
+  gTo := id
+  tOf := fun l => if l.length == n then some l else none
+  tTo := id
+  jTo := List.flatten
 
 /-- Rn for any n: everything is list arithmetic; Jacobians are constant. -/
 def runRn (n : Nat) (_dbg : Bool) (op : String) (mask : Nat) (args : List K) (ints : List Int) :
@@ -462,18 +599,25 @@ def runRn (n : Nat) (_dbg : Bool) (op : String) (mask : Nat) (args : List K) (in
   | "generator" => match ints with
       | [i] => if args.isEmpty then some (Rn.generator n i) else none
       | _ => none
+  | "interp_slerp" | "interp_cubic" | "interp_smooth" | "avg_bi" | "avg_w" | "avg_fl" | "avg_fr"
+  | "decasteljau" => runBase (rnOps n) (rnCodec n) _dbg op mask args ints
   | _ => none
 
 def groupSizes (grp : String) : Nat × Nat :=
   match grp with
   | "SO2" => (2, 1) | "SE2" => (4, 3) | "SO3" => (4, 3) | "SE3" => (7, 6) | "SE_2_3" => (10, 9)
   | "SGal3" => (11, 10)
-  | "R1" => (1, 1) | "R2" => (2, 2) | "R3" => (3, 3) | "R5" => (5, 5)
+  | "R1" => (1, 1) | "R2" => (2, 2) | "R3" => (3, 3) | "R5" => (5, 5) | "R16" => (16, 16)
   | _ => (0, 0)
 
 /-- dispatch on the group name (canonical operation names only). -/
 def runCanonical (grp : String) (dbg : Bool) (op : String) (mask : Nat) (args : List K)
     (ints : List Int) : Option (Except Err (List K)) :=
+  if op == "phi" then      -- `smoothing_phi(t, degree)`: group independent; `size_t degree`
+    match args, ints with
+    | [t], [m] => some (if m < 0 then .error .logic_error else (smoothingPhi t m.toNat).map fun x => [x])
+    | _, _ => none
+  else
   match grp with
   | "SO2" => runSO2 dbg op mask args ints
   | "SE2" => runSE2 dbg op mask args ints
@@ -484,6 +628,7 @@ def runCanonical (grp : String) (dbg : Bool) (op : String) (mask : Nat) (args : 
   | "R2" => runRn 2 dbg op mask args ints
   | "R3" => runRn 3 dbg op mask args ints
   | "R5" => runRn 5 dbg op mask args ints
+  | "R16" => runRn 16 dbg op mask args ints
   | _ => none
 
 /-- aliases are resolved through `Api` (renames, and tangent-side forms with swapped optional
